@@ -231,7 +231,8 @@ def resolve_pair(sym, first, second, loc):
 def jobs(tier, seed):
     big = tier == "thorough"
     out = []
-    loc_sets = [["", "compose"], ["", "1.0"], ["compose", "1.0"], ["", "compose", "1.0"]] + ([["", "1.0", "2.0"], ["compose", "1.0", "2.0"]] if big else [])
+    loc_sets = [["", "compose"], ["", "1.0"], ["compose", "1.0"], ["", "compose", "1.0"], ["", "7.2-Beta"], ["compose", "6Server"], ["", "21_Alpha", "rawhide"]] + \
+        ([["", "1.0", "2.0"], ["compose", "1.0", "2.0"]] if big else [])          # legacy sub-directories are named after versions of every spelling
     for accessor in FILES:
         for li, locs in enumerate(loc_sets):
             for ts in ((False, True) if big or (li + seed) % 2 == 0 else (bool(li % 2),)):
